@@ -117,10 +117,12 @@ type c14Just[N runtime.Number] struct {
 func c14ToReal[N runtime.Number](j *c14Just[N]) (*primitives.GrandpaJustification[hash.H256, N], string) {
 	real := &primitives.GrandpaJustification[hash.H256, N]{Round: j.Round, Commit: j.Commit,
 		VoteAncestries: make([]runtime.Header[N, hash.H256], len(j.VoteAncestries))}
-	for i, h := range j.VoteAncestries {
+	for _, h := range j.VoteAncestries {
 		if uint64(N(h.Number)) != uint64(h.Number) {
-			return nil, "unrep"
+			return nil, "unrep" // not a value of this instantiation at all
 		}
+	}
+	for i, h := range j.VoteAncestries {
 		if len(h.Digest) != 0 {
 			return nil, "digest"
 		}
